@@ -3,28 +3,692 @@
 package ugo
 
 import (
+	"errors"
+	"math"
+
 	"github.com/ozanh/ugo/internal/verifrt"
+	"github.com/ozanh/ugo/token"
 )
 
 func isKinds(ka, kb, x, y int) bool {
 	return ka == x && kb == y || ka == y && kb == x
 }
 
+// hasKindPair reports whether the pair of (kind, element kinds) contains the
+// unordered kind pair (x,y) at the top level or at the same container slot.
+type vkObj struct {
+	o     Object
+	k     int
+	elems []int
+}
+
+func verifObjectK(name string, nkinds, maxLen int) vkObj {
+	k := verifrt.Choice(name+".kind", nkinds)
+	switch k {
+	case vkArray, vkMap:
+		n := verifrt.Choice(name+".len", maxLen+1)
+		eks := make([]int, n)
+		if k == vkArray {
+			arr := make(Array, n)
+			for i := range arr {
+				eks[i] = verifrt.Choice(name+".ek", vkUndefined+1)
+				arr[i] = verifScalar(name+".e", eks[i])
+			}
+			return vkObj{arr, k, eks}
+		}
+		m := make(Map, n)
+		keys := []string{"a", "b", "c"}
+		for i := 0; i < n; i++ {
+			eks[i] = verifrt.Choice(name+".ek", vkUndefined+1)
+			m[keys[i]] = verifScalar(name+".e", eks[i])
+		}
+		return vkObj{m, k, eks}
+	case vkString:
+		n := verifrt.Choice(name+".len", maxLen+1)
+		return vkObj{String(verifrt.String(name+".s", n)), k, nil}
+	case vkBytes:
+		n := verifrt.Choice(name+".len", maxLen+1)
+		return vkObj{Bytes(verifrt.Bytes(name+".y", n)), k, nil}
+	}
+	return vkObj{verifScalar(name, k), k, nil}
+}
+
+func pairHas(a, b vkObj, x, y int) bool {
+	if isKinds(a.k, b.k, x, y) {
+		return true
+	}
+	if a.k == b.k && (a.k == vkArray || a.k == vkMap) && len(a.elems) == len(b.elems) {
+		for i := range a.elems {
+			if isKinds(a.elems[i], b.elems[i], x, y) {
+				return true
+			}
+		}
+	}
+	return false
+}
+
 // VerifC15EqSym: a == b gives the same answer as b == a, for all pairs of
 // values of all built-in kinds (scalars fully symbolic; strings/bytes/arrays/
-// maps up to 2 elements).
+// maps up to maxlen elements).
 func VerifC15EqSym() {
 	nk := verifrt.Param("nkinds")
-	a, ka := verifObject("a", nk, 2)
-	b, kb := verifObject("b", nk, 2)
+	ml := verifrt.Param("maxlen")
+	a := verifObjectK("a", nk, ml)
+	if ka := verifrt.Param("ka"); ka >= 0 {
+		verifrt.Assume(a.k == ka)
+	}
+	b := verifObjectK("b", nk, ml)
 	var l, r bool
 	verifrt.NoPanic("eq-no-panic", func() {
-		l, r = a.Equal(b), b.Equal(a)
+		l, r = a.o.Equal(b.o), b.o.Equal(a.o)
 	})
-	verifrt.Known("C15-eq-bool-float", isKinds(ka, kb, vkBool, vkFloat))
-	verifrt.Known("C15-eq-bool-char", isKinds(ka, kb, vkBool, vkChar))
-	verifrt.Known("C15-eq-float-char", isKinds(ka, kb, vkFloat, vkChar))
+	verifrt.Known("C15-eq-bool-float", pairHas(a, b, vkBool, vkFloat))
+	verifrt.Known("C15-eq-bool-char", pairHas(a, b, vkBool, vkChar))
+	verifrt.Known("C15-eq-float-char", pairHas(a, b, vkFloat, vkChar))
 	verifrt.Assert(l == r, "eq-symmetric")
+	verifrt.ClearKnown()
+	verifrt.Reached("end")
+}
+
+// verifMiniVM runs a hand-assembled function "return p0 <op> p1" (or unary)
+// through the real VM loop.
+func verifRunBinary(op Opcode, tok token.Token, a, b Object) (Object, error) {
+	var insts []byte
+	insts = append(insts, byte(OpGetLocal), 0, byte(OpGetLocal), 1)
+	switch op {
+	case OpBinaryOp:
+		insts = append(insts, byte(OpBinaryOp), byte(tok))
+	default:
+		insts = append(insts, byte(op))
+	}
+	insts = append(insts, byte(OpReturn), 1)
+	bc := &Bytecode{Main: &CompiledFunction{NumParams: 2, NumLocals: 2, Instructions: insts}}
+	return NewVM(bc).SetRecover(false).Run(nil, a, b)
+}
+
+func verifRunUnary(tok token.Token, a Object) (Object, error) {
+	insts := []byte{byte(OpGetLocal), 0, byte(OpUnary), byte(tok), byte(OpReturn), 1}
+	bc := &Bytecode{Main: &CompiledFunction{NumParams: 1, NumLocals: 1, Instructions: insts}}
+	return NewVM(bc).SetRecover(false).Run(nil, a)
+}
+
+// VerifC15NotEqual: through the VM, a != b is the negation of a == b and the
+// VM's == is the Equal method.
+func VerifC15NotEqual() {
+	nk := verifrt.Param("nkinds")
+	a := verifObjectK("a", nk, 1)
+	b := verifObjectK("b", nk, 1)
+	var eq, ne Object
+	var e1, e2 error
+	verifrt.NoPanic("vm-eq-no-panic", func() {
+		eq, e1 = verifRunBinary(OpEqual, 0, a.o, b.o)
+		ne, e2 = verifRunBinary(OpNotEqual, 0, a.o, b.o)
+	})
+	verifrt.Assert(e1 == nil && e2 == nil, "vm-eq-no-error")
+	if e1 == nil && e2 == nil {
+		eb, ok1 := eq.(Bool)
+		nb, ok2 := ne.(Bool)
+		verifrt.Assert(ok1 && ok2, "vm-eq-returns-bool")
+		verifrt.Assert(bool(eb) != bool(nb), "ne-is-negation")
+		verifrt.Assert(bool(eb) == a.o.Equal(b.o), "vm-eq-is-Equal")
+	}
+	verifrt.Reached("end")
+}
+
+var verifRelToks = [...]token.Token{token.Less, token.LessEq, token.Greater, token.GreaterEq}
+
+func verifIsNaN(o Object) bool {
+	f, ok := o.(Float)
+	return ok && math.IsNaN(float64(f))
+}
+
+// VerifC15Order: where <, <=, >, >= are all defined for the pair in both
+// operand orders, exactly one of a<b, a==b, a>b holds (NaN aside), a<=b means
+// a<b or a==b, and a<b equals b>a. Never a panic.
+func VerifC15Order() {
+	nk := verifrt.Param("nkinds") // scalars, undefined, string, bytes
+	a := verifObjectK("a", nk, 2)
+	b := verifObjectK("b", nk, 2)
+	var ab, ba [4]bool
+	defined := true
+	definedAB, definedBA := true, true
+	verifrt.NoPanic("rel-no-panic", func() {
+		for i, tok := range verifRelToks {
+			v, err := a.o.BinaryOp(tok, b.o)
+			if err != nil {
+				definedAB = false
+			} else {
+				bv, ok := v.(Bool)
+				verifrt.Assert(ok, "rel-returns-bool")
+				ab[i] = bool(bv)
+			}
+			v, err = b.o.BinaryOp(tok, a.o)
+			if err != nil {
+				definedBA = false
+			} else {
+				bv, ok := v.(Bool)
+				verifrt.Assert(ok, "rel-returns-bool")
+				ba[i] = bool(bv)
+			}
+		}
+	})
+	defined = definedAB && definedBA
+	if definedAB != definedBA {
+		verifrt.Note("relational operators defined in one operand order only: " + vkNames[a.k] + " vs " + vkNames[b.k])
+	}
+	if defined {
+		verifrt.Assume(!verifIsNaN(a.o) && !verifIsNaN(b.o))
+		eq := a.o.Equal(b.o)
+		lt, le, gt, ge := ab[0], ab[1], ab[2], ab[3]
+		// equality known findings leak into trichotomy for these pairs
+		verifrt.Known("C15-eq-bool-float", pairHas(a, b, vkBool, vkFloat))
+		verifrt.Known("C15-eq-bool-char", pairHas(a, b, vkBool, vkChar))
+		verifrt.Known("C15-eq-float-char", pairHas(a, b, vkFloat, vkChar))
+		n := 0
+		if lt {
+			n++
+		}
+		if eq {
+			n++
+		}
+		if gt {
+			n++
+		}
+		verifrt.Assert(n == 1, "trichotomy")
+		verifrt.Assert(le == (lt || eq), "le-is-lt-or-eq")
+		verifrt.Assert(ge == (gt || eq), "ge-is-gt-or-eq")
+		verifrt.ClearKnown()
+		verifrt.Assert(lt == ba[2], "lt-is-flipped-gt")
+		verifrt.Assert(gt == ba[0], "gt-is-flipped-lt")
+		verifrt.Assert(le == ba[3], "le-is-flipped-ge")
+		verifrt.Assert(ge == ba[1], "ge-is-flipped-le")
+		verifrt.Reached("defined")
+	}
+	verifrt.Reached("end")
+}
+
+// ---------------------------------------------------------------------------
+// refops: the operator table of docs/operators.md as a pure function.
+
+const (
+	refOK = iota
+	refTypeError
+	refZeroDiv
+	refSomeError // an error is required, the docs do not name its kind
+)
+
+type refVal struct {
+	k int // vkInt, vkUint, vkFloat, vkChar, vkBool
+	i int64
+	u uint64
+	f float64
+	c int32
+	b bool
+}
+
+func refOf(o Object) refVal {
+	switch v := o.(type) {
+	case Int:
+		return refVal{k: vkInt, i: int64(v)}
+	case Uint:
+		return refVal{k: vkUint, u: uint64(v)}
+	case Float:
+		return refVal{k: vkFloat, f: float64(v)}
+	case Char:
+		return refVal{k: vkChar, c: int32(v)}
+	case Bool:
+		return refVal{k: vkBool, b: bool(v)}
+	}
+	return refVal{k: vkUndefined}
+}
+
+func (r refVal) toObject() Object {
+	switch r.k {
+	case vkInt:
+		return Int(r.i)
+	case vkUint:
+		return Uint(r.u)
+	case vkFloat:
+		return Float(r.f)
+	case vkChar:
+		return Char(r.c)
+	case vkBool:
+		return Bool(r.b)
+	}
+	return Undefined
+}
+
+func refConv(v refVal, k int) refVal {
+	if v.k == k {
+		return v
+	}
+	switch k {
+	case vkInt:
+		switch v.k {
+		case vkBool:
+			if v.b {
+				return refVal{k: vkInt, i: 1}
+			}
+			return refVal{k: vkInt, i: 0}
+		}
+	case vkUint:
+		switch v.k {
+		case vkInt:
+			return refVal{k: vkUint, u: uint64(v.i)}
+		}
+	case vkFloat:
+		switch v.k {
+		case vkInt:
+			return refVal{k: vkFloat, f: float64(v.i)}
+		case vkUint:
+			return refVal{k: vkFloat, f: float64(v.u)}
+		}
+	case vkChar:
+		switch v.k {
+		case vkInt:
+			return refVal{k: vkChar, c: int32(v.i)}
+		case vkUint:
+			return refVal{k: vkChar, c: int32(v.u)}
+		}
+	}
+	panic("refConv: no documented conversion")
+}
+
+func refUntyped(b bool, k int) refVal {
+	n := int64(0)
+	if b {
+		n = 1
+	}
+	switch k {
+	case vkUint:
+		return refVal{k: vkUint, u: uint64(n)}
+	case vkFloat:
+		return refVal{k: vkFloat, f: float64(n)}
+	case vkChar:
+		return refVal{k: vkChar, c: int32(n)}
+	}
+	return refVal{k: vkInt, i: n}
+}
+
+func isRel(tok token.Token) bool {
+	return tok == token.Less || tok == token.LessEq || tok == token.Greater || tok == token.GreaterEq
+}
+
+// refBinary returns the documented result of x tok y for scalar operands.
+func refBinary(tok token.Token, x, y refVal) (refVal, int) {
+	// "bool values are treated as untyped 1 or 0": an untyped constant takes
+	// the type of the other operand (int when both are bool).
+	if x.k == vkBool {
+		x = refUntyped(x.b, y.k)
+	}
+	if y.k == vkBool {
+		y = refUntyped(y.b, x.k)
+	}
+	var k int
+	switch {
+	case x.k == vkFloat || y.k == vkFloat:
+		if x.k == vkChar || y.k == vkChar {
+			return refVal{}, refTypeError
+		}
+		k = vkFloat
+	case x.k == vkChar || y.k == vkChar:
+		k = vkChar
+		if x.k != y.k {
+			// char with int/uint: only + - and the relational operators
+			if !(tok == token.Add || tok == token.Sub || isRel(tok)) {
+				return refVal{}, refTypeError
+			}
+		}
+	case x.k == vkUint || y.k == vkUint:
+		k = vkUint
+	default:
+		k = vkInt
+	}
+	x, y = refConv(x, k), refConv(y, k)
+	bres := func(b bool) (refVal, int) { return refVal{k: vkBool, b: b}, refOK }
+	switch k {
+	case vkFloat:
+		switch tok {
+		case token.Add:
+			return refVal{k: k, f: x.f + y.f}, refOK
+		case token.Sub:
+			return refVal{k: k, f: x.f - y.f}, refOK
+		case token.Mul:
+			return refVal{k: k, f: x.f * y.f}, refOK
+		case token.Quo:
+			if y.f == 0 {
+				return refVal{}, refZeroDiv
+			}
+			return refVal{k: k, f: x.f / y.f}, refOK
+		case token.Less:
+			return bres(x.f < y.f)
+		case token.LessEq:
+			return bres(x.f <= y.f)
+		case token.Greater:
+			return bres(x.f > y.f)
+		case token.GreaterEq:
+			return bres(x.f >= y.f)
+		}
+		return refVal{}, refTypeError
+	case vkInt:
+		a, b := x.i, y.i
+		switch tok {
+		case token.Add:
+			return refVal{k: k, i: a + b}, refOK
+		case token.Sub:
+			return refVal{k: k, i: a - b}, refOK
+		case token.Mul:
+			return refVal{k: k, i: a * b}, refOK
+		case token.Quo:
+			if b == 0 {
+				return refVal{}, refZeroDiv
+			}
+			return refVal{k: k, i: a / b}, refOK
+		case token.Rem:
+			if b == 0 {
+				return refVal{}, refZeroDiv
+			}
+			return refVal{k: k, i: a % b}, refOK
+		case token.And:
+			return refVal{k: k, i: a & b}, refOK
+		case token.Or:
+			return refVal{k: k, i: a | b}, refOK
+		case token.Xor:
+			return refVal{k: k, i: a ^ b}, refOK
+		case token.AndNot:
+			return refVal{k: k, i: a &^ b}, refOK
+		case token.Shl:
+			if b < 0 {
+				return refVal{}, refSomeError
+			}
+			return refVal{k: k, i: a << uint64(b)}, refOK
+		case token.Shr:
+			if b < 0 {
+				return refVal{}, refSomeError
+			}
+			return refVal{k: k, i: a >> uint64(b)}, refOK
+		case token.Less:
+			return bres(a < b)
+		case token.LessEq:
+			return bres(a <= b)
+		case token.Greater:
+			return bres(a > b)
+		case token.GreaterEq:
+			return bres(a >= b)
+		}
+	case vkUint:
+		a, b := x.u, y.u
+		switch tok {
+		case token.Add:
+			return refVal{k: k, u: a + b}, refOK
+		case token.Sub:
+			return refVal{k: k, u: a - b}, refOK
+		case token.Mul:
+			return refVal{k: k, u: a * b}, refOK
+		case token.Quo:
+			if b == 0 {
+				return refVal{}, refZeroDiv
+			}
+			return refVal{k: k, u: a / b}, refOK
+		case token.Rem:
+			if b == 0 {
+				return refVal{}, refZeroDiv
+			}
+			return refVal{k: k, u: a % b}, refOK
+		case token.And:
+			return refVal{k: k, u: a & b}, refOK
+		case token.Or:
+			return refVal{k: k, u: a | b}, refOK
+		case token.Xor:
+			return refVal{k: k, u: a ^ b}, refOK
+		case token.AndNot:
+			return refVal{k: k, u: a &^ b}, refOK
+		case token.Shl:
+			return refVal{k: k, u: a << b}, refOK
+		case token.Shr:
+			return refVal{k: k, u: a >> b}, refOK
+		case token.Less:
+			return bres(a < b)
+		case token.LessEq:
+			return bres(a <= b)
+		case token.Greater:
+			return bres(a > b)
+		case token.GreaterEq:
+			return bres(a >= b)
+		}
+	case vkChar:
+		a, b := x.c, y.c
+		switch tok {
+		case token.Add:
+			return refVal{k: k, c: a + b}, refOK
+		case token.Sub:
+			return refVal{k: k, c: a - b}, refOK
+		case token.Mul:
+			return refVal{k: k, c: a * b}, refOK
+		case token.Quo:
+			if b == 0 {
+				return refVal{}, refZeroDiv
+			}
+			return refVal{k: k, c: a / b}, refOK
+		case token.Rem:
+			if b == 0 {
+				return refVal{}, refZeroDiv
+			}
+			return refVal{k: k, c: a % b}, refOK
+		case token.And:
+			return refVal{k: k, c: a & b}, refOK
+		case token.Or:
+			return refVal{k: k, c: a | b}, refOK
+		case token.Xor:
+			return refVal{k: k, c: a ^ b}, refOK
+		case token.AndNot:
+			return refVal{k: k, c: a &^ b}, refOK
+		case token.Shl:
+			if b < 0 {
+				return refVal{}, refSomeError
+			}
+			return refVal{k: k, c: a << uint32(b)}, refOK
+		case token.Shr:
+			if b < 0 {
+				return refVal{}, refSomeError
+			}
+			return refVal{k: k, c: a >> uint32(b)}, refOK
+		case token.Less:
+			return bres(a < b)
+		case token.LessEq:
+			return bres(a <= b)
+		case token.Greater:
+			return bres(a > b)
+		case token.GreaterEq:
+			return bres(a >= b)
+		}
+	}
+	return refVal{}, refTypeError
+}
+
+func verifSameScalar(got Object, want refVal) bool {
+	switch want.k {
+	case vkInt:
+		v, ok := got.(Int)
+		return ok && int64(v) == want.i
+	case vkUint:
+		v, ok := got.(Uint)
+		return ok && uint64(v) == want.u
+	case vkChar:
+		v, ok := got.(Char)
+		return ok && int32(v) == want.c
+	case vkBool:
+		v, ok := got.(Bool)
+		return ok && bool(v) == want.b
+	case vkFloat:
+		v, ok := got.(Float)
+		if !ok {
+			return false
+		}
+		gf := float64(v)
+		// bit-for-bit (so -0.0 != 0.0); all NaNs are one value
+		return math.Float64bits(gf) == math.Float64bits(want.f) || (gf != gf && want.f != want.f)
+	}
+	return false
+}
+
+var verifArithToks = [...]token.Token{
+	token.Add, token.Sub, token.Mul, token.Quo, token.Rem, token.And, token.Or, token.Xor,
+	token.AndNot, token.Shl, token.Shr, token.Less, token.LessEq, token.Greater, token.GreaterEq,
+}
+
+func verifErrKind(err error) int {
+	switch {
+	case err == nil:
+		return refOK
+	case errors.Is(err, ErrZeroDivision):
+		return refZeroDiv
+	case errors.Is(err, ErrType):
+		return refTypeError
+	}
+	return refSomeError
+}
+
+// VerifC15Arith: every binary operator on int/uint/float/char/bool operands
+// returns the documented result (refBinary) or the documented error, and
+// never panics. Param "via" selects the entry point: 0 = BinaryOp method,
+// 1 = compiled OpBinaryOp through the VM loop.
+func VerifC15Arith() {
+	ti := verifrt.Param("tok")
+	tok := verifArithToks[ti]
+	ka := verifrt.Choice("a.kind", vkBool+1)
+	kb := verifrt.Choice("b.kind", vkBool+1)
+	a := verifScalar("a", ka)
+	b := verifScalar("b", kb)
+	want, wantErr := refBinary(tok, refOf(a), refOf(b))
+
+	var got Object
+	var err error
+	// known findings of the unchanged tree
+	intLike := func(k int) bool { return k == vkInt || k == vkUint || k == vkBool }
+	verifrt.Known("C15-int-char-relational-widening", isRel(tok) && (intLike(ka) && kb == vkChar || ka == vkChar && intLike(kb)))
+	verifrt.Known("C15-bool-lhs-float-char-typeerror", ka == vkBool && (kb == vkFloat || kb == vkChar))
+	verifrt.Known("C15-rem-zero-panic", tok == token.Rem && wantErr == refZeroDiv)
+	verifrt.Known("C15-negative-shift-panic", (tok == token.Shl || tok == token.Shr) && wantErr == refSomeError)
+	verifrt.NoPanic("binaryop-no-panic", func() {
+		if verifrt.Param("via") == 1 {
+			got, err = verifRunBinary(OpBinaryOp, tok, a, b)
+		} else {
+			got, err = a.BinaryOp(tok, b)
+		}
+	})
+	if got == nil && err == nil {
+		// the call panicked (already recorded)
+		verifrt.ClearKnown()
+		verifrt.Reached("end")
+		return
+	}
+	gotErr := verifErrKind(err)
+	switch wantErr {
+	case refOK:
+		verifrt.Assert(gotErr == refOK, "defined-op-returns-value")
+		if gotErr == refOK {
+			verifrt.Assert(verifSameScalar(got, want), "result-equals-go-operation")
+		}
+	case refSomeError:
+		verifrt.Assert(gotErr != refOK, "undefined-op-returns-error")
+	default:
+		verifrt.Assert(gotErr == wantErr, "documented-error-kind")
+	}
+	verifrt.ClearKnown()
+	verifrt.Reached("end")
+}
+
+// VerifC15Unary: unary + - ^ ! through the VM against the documented table.
+func VerifC15Unary() {
+	toks := [...]token.Token{token.Add, token.Sub, token.Xor, token.Not}
+	tok := toks[verifrt.Choice("tok", len(toks))]
+	ka := verifrt.Choice("a.kind", vkUndefined+1)
+	a := verifScalar("a", ka)
+	var got Object
+	var err error
+	verifrt.NoPanic("unary-no-panic", func() { got, err = verifRunUnary(tok, a) })
+	if got == nil && err == nil {
+		verifrt.Reached("end")
+		return
+	}
+	r := refOf(a)
+	var want refVal
+	wantErr := refOK
+	switch tok {
+	case token.Not:
+		want = refVal{k: vkBool, b: a.IsFalsy()}
+		// documented falsiness
+		var falsy bool
+		switch ka {
+		case vkInt:
+			falsy = r.i == 0
+		case vkUint:
+			falsy = r.u == 0
+		case vkFloat:
+			falsy = math.IsNaN(r.f)
+		case vkChar:
+			falsy = r.c == 0
+		case vkBool:
+			falsy = !r.b
+		case vkUndefined:
+			falsy = true
+		}
+		verifrt.Assert(a.IsFalsy() == falsy, "isfalsy-documented")
+	case token.Add:
+		switch ka {
+		case vkInt, vkUint, vkFloat, vkChar:
+			want = r
+		case vkBool:
+			want = refConv(r, vkInt)
+		default:
+			wantErr = refTypeError
+		}
+	case token.Sub:
+		switch ka {
+		case vkInt:
+			want = refVal{k: vkInt, i: -r.i}
+		case vkUint:
+			want = refVal{k: vkUint, u: -r.u}
+		case vkFloat:
+			want = refVal{k: vkFloat, f: -r.f}
+		case vkChar:
+			want = refVal{k: vkInt, i: int64(-r.c)} // tutorial: char(int); Go operation on the rune, result int
+		case vkBool:
+			want = refVal{k: vkInt, i: -refConv(r, vkInt).i}
+		default:
+			wantErr = refTypeError
+		}
+	case token.Xor:
+		switch ka {
+		case vkInt:
+			want = refVal{k: vkInt, i: ^r.i}
+		case vkUint:
+			want = refVal{k: vkUint, u: ^r.u}
+		case vkChar:
+			want = refVal{k: vkChar, c: ^r.c} // tutorial: char(char)
+		case vkBool:
+			want = refVal{k: vkInt, i: ^refConv(r, vkInt).i}
+		default:
+			wantErr = refTypeError
+		}
+	}
+	verifrt.Known("C15-unary-xor-char-yields-int", tok == token.Xor && ka == vkChar)
+	gotErr := refOK
+	if err != nil {
+		gotErr = refSomeError
+		if errors.Is(err, ErrType) {
+			gotErr = refTypeError
+		}
+	}
+	if wantErr == refOK {
+		verifrt.Assert(gotErr == refOK, "unary-defined")
+		if gotErr == refOK {
+			verifrt.Assert(verifSameScalar(got, want), "unary-result")
+		}
+	} else {
+		verifrt.Assert(gotErr == refTypeError, "unary-typeerror")
+	}
 	verifrt.ClearKnown()
 	verifrt.Reached("end")
 }
